@@ -96,6 +96,7 @@ pub fn big_unarmor_probe(rep: &mut Report, pid: &str, n: usize, judge_value: boo
     rep.class(format!("unarmor of {} characters 'w'", n));
     let what = format!("vec![b'w'; {}], fill 0", n);
     let want_len = (n * 6 + 7) / 8;
+    mon::allow(n);
     match mon::guard(|| ais::messages::unarmor(&s, 0).ok().map(|v| (v.len(), v[..v.len() - 1].iter().position(|b| *b != 0xff)))) {
         Err(p) => rep.violation(pid, format!("panic@{}", p.loc), format!("unarmor of {} characters panicked: '{}' at {}", n, p.msg, p.loc), || J::s(&what)),
         Ok(None) => {
